@@ -825,3 +825,64 @@ func genOrdered(r *hutil.Rand, k int, next caseDesc) ([]caseDesc, caseDesc, stri
 	}
 	return prevs, follow, form
 }
+
+// ---------- envelopes around recognised messages ----------
+
+// What syslog daemons and collectors put AROUND a message: rsyslog's repeated-message reduction ("message repeated N times:
+// [ <msg>]", "last message repeated N times"), BSD syslogd's "--- last message repeated N times ---", a timestamp + host + tag
+// prefix left in place, RFC 5424 and journald renderings, sshd's own trailing " [preauth]", quotes, nestings and near misses
+// of these.  To the daemon a line is what it begins with: an enveloped message does not begin with a recognised keyword,
+// so nothing is emitted and nothing is counted (C11, C19), whatever N says (0 ... 1000 and beyond); with a trailing
+// " [preauth]" the line does begin with its keyword and whatever is emitted is counted once.  idx walks envelope-major
+// through (envelope, message form); no expectation about the event is attached (the oracles need none).
+var repeatCounts = []int{2, 3, 0, 1, 5, 10, 64, 100, 999, 1000, 1001, 65536, 4294967296}
+
+const nEnvelopes = 12
+
+func genEnveloped(r *hutil.Rand, idx int) genLine {
+	if idx < 0 {
+		idx = -idx
+	}
+	form := precedingForms[(idx/nEnvelopes+idx)%len(precedingForms)]
+	if r.Chance(1, 3) {
+		// the forms that hand a login over, more often
+		form = slowForms[r.Intn(len(slowForms))]
+	}
+	inner := genGenuine(r, form).Line
+	n := repeatCounts[(idx/nEnvelopes)%len(repeatCounts)]
+	if r.Chance(1, 4) {
+		n = r.Intn(1001)
+	}
+	pid := 1 + r.Intn(4000000)
+	host := hutil.Pick(r, []string{"node-7", "host.example.com", "localhost", "ip-10-0-0-7"})
+	var line string
+	switch idx % nEnvelopes {
+	case 0, 6: // rsyslog, $RepeatedMsgReduction on: exactly its form
+		line = fmt.Sprintf("message repeated %d times: [ %s]", n, inner)
+	case 1: // near misses of it
+		line = fmt.Sprintf(hutil.Pick(r, []string{"message repeated %d times: [%s]", "message repeated %d times: [ %s", "message repeated %d times: [ %s] ", "message repeated %d times: %s",
+			"Message repeated %d times: [ %s]", "message repeated %d time: [ %s]", " message repeated %d times: [ %s]", "message repeated %d times: [  %s ]", "message repeated +%d times: [ %s]"}), n, inner)
+	case 2:
+		line = fmt.Sprintf(hutil.Pick(r, []string{"last message repeated %d times", "--- last message repeated %d times ---", "last message repeated %d time"}), n)
+		if r.Chance(1, 4) { // ... with the message behind it
+			line += ": " + inner
+		}
+	case 3: // the traditional prefix left in place
+		line = fmt.Sprintf("%s %s sshd[%d]: %s", hutil.Pick(r, []string{"Oct  1 12:00:00", "Jan 31 23:59:59", "2026-10-01T12:00:00.123456+00:00"}), host, pid, inner)
+	case 4: // RFC 5424
+		line = fmt.Sprintf("<%d>1 2026-10-01T12:00:00Z %s sshd %d - - %s", hutil.Pick(r, []int{38, 86, 0, 191}), host, pid, inner)
+	case 5: // sshd's own suffix: the line begins with its keyword
+		line = inner + hutil.Pick(r, []string{" [preauth]", " [preauth]", "[preauth]", " [postauth]", " [preauth] "})
+	case 7: // tag only (journald short, busybox)
+		line = fmt.Sprintf(hutil.Pick(r, []string{"sshd[%d]: %s", "sshd-session[%d]: %s", "%d %s", "[%d] %s", "auth.info sshd[%d]: %s"}), pid, inner)
+	case 8: // nested / doubled reduction
+		line = fmt.Sprintf("message repeated %d times: [ message repeated %d times: [ %s]]", n, repeatCounts[r.Intn(len(repeatCounts))], inner)
+	case 9: // quoting and structured renderings
+		line = fmt.Sprintf(hutil.Pick(r, []string{"\"%s\"", "'%s'", "MESSAGE=%s", "{\"MESSAGE\":\"%s\"}", "msg=\"%s\"", "[%s]", "[ %s]", "(%s)", "> %s"}), inner)
+	case 10: // the reduction wrapper around a line that is not a recognised message
+		line = fmt.Sprintf("message repeated %d times: [ %s]", n, hutil.Pick(r, []string{"Connection closed by 10.0.0.1 port 22 [preauth]", "", "x", "Failed none for root from ::1 port 1 ssh2", "message repeated", "]", "[ ]"}))
+	default: // the count in other spellings
+		line = fmt.Sprintf("message repeated %s times: [ %s]", hutil.Pick(r, []string{"", "-2", "2.0", "0x10", "two", "99999999999999999999", "007", " 3", "1e3"}), inner)
+	}
+	return genLine{Form: "enveloped", Line: line}
+}
